@@ -133,3 +133,51 @@ Definition nx_set_node_graph (g : graph) (store : fgraphs) (n : Z) (h : graph) :
 (** G.nodes[n].get('graph', None) *)
 Definition nx_get_node_graph (g : graph) (store : fgraphs) (n : Z) : res (option graph) :=
   if has_node g n then Ok (fg_get n store) else Err EKey.
+
+(** ------------------------------------------------------------------ sets, while, strings (set_atom_names_atomistic) *)
+(** a set is kept as the list of its members, newest first; only membership tests and add are translated
+    (never iteration or len) *)
+Definition zset_mem (x : Z) (s : list Z) : bool := existsb (Z.eqb x) s.
+Definition sset_mem (x : pystr) (s : list pystr) : bool := existsb (str_eqb x) s.
+(** x in s for a str x and a set of Python values *)
+Definition pvset_mem_str (x : pystr) (s : list pyval) : bool := existsb (pyval_eqb (VStr x)) s.
+Definition set_add_int (s : list Z) (x : Z) : list Z := if zset_mem x s then s else x :: s.
+Definition set_add_str (s : list pystr) (x : pystr) : list pystr := if sset_mem x s then s else x :: s.
+(** len(v) *)
+Definition py_len_pv (v : pyval) : res Z :=
+  match v with
+  | VList l | VTup l => Ok (Z.of_nat (length l))
+  | VStr s => Ok (Z.of_nat (length s))
+  | VDict d => Ok (Z.of_nat (length d))
+  | _ => Err EType
+  end.
+(** v + s for a str s *)
+Definition py_add_pv_str (v : pyval) (s : pystr) : res pystr := x <- as_str v ;; Ok (x ++ s).
+Definition py_assert (b : bool) : res unit := if b then Ok tt else Err EAssert.
+(** while cond: body.  The translator bounds the number of iterations by 1 + the sizes of the sets the
+    condition tests; running out of this fuel is the error EOutOfFuel (never a silent answer). *)
+Fixpoint py_while {St} (fuel : nat) (cond : St -> bool) (body : St -> res St) (st : St) : res St :=
+  match fuel with
+  | O => Err EOutOfFuel
+  | Datatypes.S f => if cond st then st' <- body st ;; py_while f cond body st' else Ok st
+  end.
+(** a Python value used as node key of a graph whose keys are ints (KeyError for anything else; see [ddl]
+    for bool/float) *)
+Definition py_node_key (v : pyval) : res Z := match v with VInt z => Ok z | _ => Err EKey end.
+(** G.nodes[n][k] = v *)
+Definition nx_set_node_item (g : graph) (n : Z) (k : pystr) (v : pyval) : res graph :=
+  if has_node g n then Ok (set_node_attr g n k v) else Err EKey.
+(** bool(G) *)
+Definition nx_truthy (g : graph) : bool := match g with [] => false | _ => true end.
+(** the value of G.nodes[n].get('graph', None): truth value, .nodes *)
+Definition opt_graph_truthy (o : option graph) : bool := match o with Some g => nx_truthy g | None => false end.
+Definition opt_graph_nodes (o : option graph) : res (list Z) :=
+  match o with Some g => Ok (node_keys g) | None => Err EAttr end.
+(** G.nodes[mn]['graph'].nodes[n][k] = v *)
+Definition nx_set_store_node_item (g : graph) (store : fgraphs) (mn n : Z) (k : pystr) (v : pyval) : res fgraphs :=
+  if has_node g mn then
+    match fg_get mn store with
+    | Some h => if has_node h n then Ok (fg_set mn (set_node_attr h n k v) store) else Err EKey
+    | None => Err EKey
+    end
+  else Err EKey.
